@@ -824,6 +824,16 @@ class BlockBase(Base):
                             content[-1].get_end_label(),
                         )
                         if start_label != end_label:
+                            if isinstance(obj, di.End_Do_Stmt):
+                                # An END DO that does not carry the label of
+                                # this DO statement cannot end the construct,
+                                # and inner constructs have already consumed
+                                # their own: it closes nothing.
+                                raise FortranSyntaxError(
+                                    reader,
+                                    f"END DO does not have the label "
+                                    f"'{start_label}' of the DO statement",
+                                )
                             continue
                     if match_names:
                         start_name, end_name = (
